@@ -1,7 +1,7 @@
 /-
   Driver/File.lean — file source split / non-parallel source (C15).
   header: `<id> file <n> <mode>` (`F` = FileSource, `I` = IteratorSource over the bytes as items);
-  ops: `bytes <b,b,…>` (content = concatenation of all op lines);
+  ops: `bytes <b,b,…>` | `rep <count> <b,b,…>` (content = concatenation of all op lines);
   outputs: one line per replica `0..n`: `<replica> [[b,…],…]` (mode F) / `<replica> [b,…]` (mode I).
 -/
 import Driver.Proto
@@ -41,7 +41,11 @@ def handle (c : Case) : Verdict :=
   | [_, _, n, mode] =>
     match n.toNat? with
     | some n =>
-      let bytes := c.ops.flatMap fun w => match w with | ["bytes", b] => parseBytes b | _ => []
+      let bytes := c.ops.flatMap fun w =>
+        match w with
+        | ["bytes", b] => parseBytes b
+        | ["rep", k, b] => (List.replicate (k.toNat?.getD 0) (parseBytes b)).flatten
+        | _ => []
       let impl := c.implOut.filterMap parseOut
       let implOk := impl.length == c.implOut.length ∧ impl.map (·.1) == List.range n
       if mode == "F" then
@@ -62,6 +66,7 @@ def handle (c : Case) : Verdict :=
         let nonEmptyReplicas := (model.filter (!·.isEmpty)).length
         { out, oracle, nontrivial := n ≥ 2 && spec.length ≥ 2,
           tags := [s!"n{n}", if sz == 0 then "empty-file" else if sz < n then "bytes<n" else "bytes>=n",
+                   if sz > 8192 then "large" else "small",
                    if bytes.getLast? == some 10 then "final-nl" else "no-final-nl",
                    if spec.any (fun l => n > 0 ∧ l.length > sz / n) then "line>range" else "lines<=range",
                    if bytes.contains 13 then "crlf" else "lf",
